@@ -182,6 +182,22 @@ func c05Batching(w *World, r *Report) {
 		ob.Violate("append-not-in-loop", app.Pos(), "the append is not inside the loop over the received commands")
 		return
 	}
+	// the loop visits every received command
+	nTrav := 0
+	for _, l := range sliceLoops(fn) {
+		if l.Head == h {
+			nTrav++
+			if l.Slice != ssa.Value(fn.Params[2]) {
+				if s, isSub := l.Slice.(*ssa.Slice); !isSub || s.X != ssa.Value(fn.Params[2]) {
+					ob.Violate("loop-source", blockPos(h), "the batching loop ranges over `"+Expr(l.Slice)+"`, not over the received commands")
+				}
+			}
+			checkFullTraversal(w, ob, l, "the received commands", nil)
+		}
+	}
+	if nTrav == 0 {
+		ob.Undecided("shape/traversal", "the batching loop is not a counted loop over the received commands")
+	}
 	isApp := func(x ssa.Instruction) bool { return x == app }
 	inBody := func(b *ssa.BasicBlock, k int) bool { return body[b.Succs[k]] }
 	for _, s := range h.Succs {
@@ -616,6 +632,19 @@ func c05Reconcile(w *World, r *Report) {
 			}
 			ob.Site(in.Pos(), x.call+" called")
 		})
+	}
+	// completeness: every list is walked in full and no success return is reachable before the
+	// deletions and creations were carried out (an empty leader list is a list: its tables are gone)
+	loops := sliceLoops(fn)
+	for _, l := range loops {
+		checkFullTraversal(w, ob, l, "`"+Expr(l.Slice)+"`", nil)
+		head := l.Head
+		if p := (&Walk{Barrier: func(x ssa.Instruction) bool { return x.Block() == head }, Target: isSuccessReturn}).Find(entry(fn)); p != nil {
+			ob.Violate("returns-before-loop", instrPos(p.Hit), "reconcileTables can return successfully without having gone through the loop over `"+Expr(l.Slice)+"`: the tables it would delete or create stay as they are", w.PathString(p)...)
+		}
+	}
+	if len(loops) < 4 {
+		ob.Violate("loops-missing", fn.Pos(), "reconcileTables no longer has the four loops (two membership passes, deletions, creations)")
 	}
 	ob.NeedFloor(6)
 }
